@@ -3220,7 +3220,7 @@ class UTPM(Ring, RawAlgorithmsMixIn):
     @classmethod
     def pb_tile(cls, Bbar, A, reps, B, out = None):
 
-        if(isinstance(reps, int)):
+        if numpy.isscalar(reps):
             reps=[reps]
 
         d = len(reps)
